@@ -75,14 +75,87 @@ func GenRandom(r *hx.Rand, maxLen int) Input {
 				break
 			}
 			st.Op, st.K = "sendfail", r.Range(1, 4)
-		case x < 96:
+		case x < 95:
 			st.Op = "teardown"
+		case x < 97:
+			st.Op = "holdsend"
+		case x < 99:
+			st.Op = "releasesend"
 		default:
 			st.Op, st.K = "ack", 1
 		}
 		in.Steps = append(in.Steps, st)
 	}
+	if r.Chance(1, 8) {
+		kind := r.Intn(2)
+		if kind == 1 {
+			in.Gated = true
+			in.Bundle = 10000
+		}
+		keep := r.Intn(4)
+		if keep > len(in.Steps) {
+			keep = len(in.Steps)
+		}
+		pre := in.Steps[:keep:keep]
+		for i := range pre { // the prefix must not tear anything down or break the store
+			switch pre[i].Op {
+			case "teardown", "failset", "failtx", "sendfail", "holdsend":
+				pre[i] = Step{Op: "ack", S: pre[i].S, K: 1}
+			case "release":
+				pre[i].Ok = true
+			}
+		}
+		in.Steps = append(pre, Shape(kind, in.Gated, r.Intn(in.NSrc), r)...)
+		in.TdShort = false
+	}
 	return in
+}
+
+// Shapes are schedules that need several letters in one particular order, so that drawing the
+// letters independently almost never produces them. GenRandom embeds one in about one case of
+// eight (after a random prefix of harmless letters).
+//
+//	0 a send is parked in the plugin stream while a later ack is still in the debounce batch and
+//	  the source is torn down; the send is released while Teardown drains
+//	1 a slow commit, two flush triggers during it, a further ack + flush, the later commits
+//	  finishing first (what a persister that lets flushes overlap turns into a stored position
+//	  that moves backwards)
+func Shape(kind int, gated bool, s int, r *hx.Rand) []Step {
+	rel := func(ok, newest bool) []Step {
+		if !gated {
+			return nil
+		}
+		return []Step{{Op: "release", Ok: ok, Newest: newest}}
+	}
+	var out []Step
+	add := func(st ...Step) { out = append(out, st...) }
+	trig := func() Step {
+		if r != nil && r.Chance(1, 3) {
+			return Step{Op: "timer"}
+		}
+		return Step{Op: "flush"}
+	}
+	switch kind {
+	case 0:
+		add(Step{Op: "holdsend", S: s}, Step{Op: "ack", S: s, K: 1}, trig())
+		add(rel(true, false)...)
+		add(Step{Op: "ack", S: s, K: 1}, Step{Op: "teardown", S: s})
+		add(rel(true, false)...)
+		add(Step{Op: "releasesend", S: s})
+	case 1:
+		// only meaningful on a gated store
+		add(Step{Op: "ack", S: s, K: 1}, Step{Op: "flush"})           // W1 parks
+		add(Step{Op: "ack", S: s, K: 1}, Step{Op: "flush"}, trig())    // two triggers wait for W1
+		add(Step{Op: "flush"})
+		add(Step{Op: "release", Ok: true})                             // W1 done: the waiters go on
+		add(Step{Op: "ack", S: s, K: 1}, Step{Op: "flush"})            // waits for the latest generation only
+		newest := r == nil || r.Bool()
+		add(Step{Op: "release", Ok: true, Newest: newest})             // one of the two overlapping writes
+		add(Step{Op: "release", Ok: true, Newest: true})               // the newest write first ...
+		add(Step{Op: "release", Ok: true, Newest: true})
+		add(Step{Op: "release", Ok: true}, Step{Op: "release", Ok: true}) // ... the older ones last
+	}
+	return out
 }
 
 // Alphabet of the exhaustive mode (one source, gated store, retry bound 1):
@@ -187,6 +260,79 @@ func Exhaustive(maxLen int, emit func(k int, in Input)) int {
 	return k
 }
 
+// Second small-scope family: one source on a store whose commits complete by themselves, so that
+// the letters about the plugin stream fit into the length bound:
+//
+//	a Ack(1)  f Flush  h HoldSend  u ReleaseSend  d Teardown  n SendFail(1)
+var letters2 = []Step{
+	{Op: "ack", K: 1}, {Op: "flush"}, {Op: "holdsend"}, {Op: "releasesend"}, {Op: "teardown"}, {Op: "sendfail", K: 1},
+}
+
+type absState2 struct {
+	batch, held, released, down bool
+	sendfails                    int
+}
+
+func (a absState2) step(i int) (absState2, bool) {
+	switch i {
+	case 0:
+		if a.down {
+			return a, false
+		}
+		a.batch = true
+	case 1:
+		if !a.batch {
+			return a, false
+		}
+		a.batch = false
+	case 2:
+		if a.held || a.down {
+			return a, false
+		}
+		a.held = true
+	case 3:
+		if !a.held || a.released {
+			return a, false
+		}
+		a.released = true
+	case 4:
+		if a.down {
+			return a, false
+		}
+		a.down, a.batch = true, false
+	case 5:
+		if a.sendfails >= 1 || a.down {
+			return a, false
+		}
+		a.sendfails++
+	}
+	return a, true
+}
+
+// Exhaustive2 enumerates the second family; k0 is the number the first schedule gets.
+func Exhaustive2(maxLen, k0 int, emit func(k int, in Input)) int {
+	k := k0
+	var rec func(a absState2, steps []Step)
+	rec = func(a absState2, steps []Step) {
+		if len(steps) > 0 {
+			in := Input{NSrc: 1, Inits: []int{0}, Retries: 1, Gated: false, Bundle: 10000,
+				Steps: append([]Step(nil), steps...)}
+			emit(k, in)
+			k++
+		}
+		if len(steps) == maxLen {
+			return
+		}
+		for i := range letters2 {
+			if b, ok := a.step(i); ok {
+				rec(b, append(steps, letters2[i]))
+			}
+		}
+	}
+	rec(absState2{batch: true}, nil)
+	return k
+}
+
 func inputFromJSON(m map[string]any) (Input, bool) {
 	var in Input
 	src, ok := m["input"]
@@ -259,7 +405,8 @@ func RunCase(in Input, fixed bool, restarts int, r *hx.Rand) (Observed, error) {
 // (the source reports it and the plugin is not acked) or nil (the plugin is acked)?
 func DetectFixed() bool {
 	in := Input{NSrc: 1, Inits: []int{0}, Retries: 1, Bundle: 10000,
-		Steps: []Step{{Op: "timer"}, {Op: "failset"}, {Op: "ack", K: 1}, {Op: "flush"}}}
+		// (the Ack replaces Open's own entry in the batch, so exactly one Set runs and fails)
+		Steps: []Step{{Op: "ack", K: 1}, {Op: "failset"}, {Op: "flush"}}}
 	obs, err := RunCase(in, false, 0, nil)
 	if err != nil {
 		return false
@@ -323,12 +470,14 @@ func Main(prop string) {
 	case o.Mode == "exhaustive":
 		maxLen := o.N
 		root := hx.NewRand(o.Seed)
-		Exhaustive(maxLen, func(k int, in Input) {
+		each := func(k int, in Input) {
 			if k%o.Shards != o.Shard {
 				return
 			}
 			emit(in, root.Fork(uint64(k)))
-		})
+		}
+		k1 := Exhaustive(maxLen, each)
+		Exhaustive2(maxLen, k1, each)
 	default:
 		root := hx.NewRand(o.Seed)
 		for i := 0; i < o.N; i++ {
@@ -336,14 +485,20 @@ func Main(prop string) {
 			emit(GenRandom(r, 40), r)
 		}
 		// "full<L>": the random schedules plus this shard's slice of the exhaustive space
-		var maxLen int
-		if n, _ := fmt.Sscanf(o.Mode, "full%d", &maxLen); n == 1 && maxLen > 0 {
-			Exhaustive(maxLen, func(k int, in Input) {
-				if k%o.Shards != o.Shard {
+		// "full<L>/<P>": ... split over the first P shards (others, e.g. corpus shards, take none)
+		var maxLen, parts int
+		if n, _ := fmt.Sscanf(o.Mode, "full%d/%d", &maxLen, &parts); n >= 1 && maxLen > 0 {
+			if n < 2 || parts <= 0 {
+				parts = o.Shards
+			}
+			each := func(k int, in Input) {
+				if k%parts != o.Shard {
 					return
 				}
 				emit(in, root.Fork(uint64(k)))
-			})
+			}
+			k1 := Exhaustive(maxLen, each)
+			Exhaustive2(maxLen, k1, each)
 		}
 	}
 	if err := w.Close(chk); err != nil {
